@@ -721,6 +721,10 @@ func check(id, tier string) int {
 		"simgen":                                 sc.simgen,
 		"rewrite_sanity":                         rewriteTest,
 	}
+	if p.Tier == "H" {
+		cov["clients"] = 1
+		cov["schedule_and_fault_dimension"] = "none: one client task, no preemption possible, no fault kinds; the only scheduler-owned draw is map iteration order"
+	}
 	if p.Clock {
 		cov["simulated_time_s"] = float64(agg.SimNanos) / 1e9
 	} else {
